@@ -701,6 +701,90 @@ def part_modes(ctx, exe, table, base, cases, rows_for, env_variants):
     ctx.oblige("direct oracle: -l LANG = language from the extension on %d cases where they name the same language" % same, True, "oracle")
 
 
+COMPANIONS = {
+    "comp_a.c": b"int tmpl = 1;\nint fn(int v) { if (v) return v + tmpl; return 0; }\n",
+    "comp_b.h": b"namespace N {\ntemplate<typename T> class K : public B<T> { public: explicit K(T t) : v(t) {} T get() const noexcept; private: T v; };\n}\n",
+    "comp_c.m": b"@interface Foo : NSObject\n- (void)bar:(int)x;\n@end\n@implementation Foo\n- (void)bar:(int)x { [self baz:x with:1]; }\n@end\n",
+    "comp_d.mm": b"namespace M { template<class T> struct S { T t; }; }\n@interface Q : NSObject\n- (int)run;\n@end\nclass W { public: virtual ~W(); };\n",
+    "comp_e.cs": b"namespace A { public class P { public int X { get; set; } void f() { foreach (var i in l) { using (var r = g()) { } } } } }\n",
+    "comp_f.java": b"public class J extends B implements I { private final int a = 1; synchronized void f() throws E { for (int x : xs) { assert x > 0; } } }\n",
+    "comp_h.tcc": b"template<class T> class Holder : public Base<T> { public: int in, out; int f() { return in * out; } };\n",
+    "COMP_I": b"class K : public B { int get; int set; };\nint g(int in, int out) { return in * out; }\n",
+    "comp_g.cpp": b"namespace Z { template<typename T> class V final { public: V() = default; auto f() -> decltype(T()) { return T(); } }; }\n",
+}
+
+
+def part_batches(ctx, exe, base, cases):
+    """several files in one invocation (positional arguments, -F list, --replace): every file is formatted as in a run of its own,
+    language from each file's own extension, whatever was formatted before it"""
+    rng = ctx.rng
+    boxes = []
+    for ci, (cfg, ip, ldir) in enumerate(cases):
+        raw = open(ip, "rb").read()
+        n = os.path.basename(ip)
+        if n in COMPANIONS or len(raw) > 30000:
+            continue
+        tdir = os.path.join(base, "bt%d" % ci)
+        os.makedirs(tdir)
+        files = dict(COMPANIONS)
+        files[n] = raw
+        for fn, data in files.items():
+            with open(os.path.join(tdir, fn), "wb") as f:
+                f.write(data)
+        boxes.append((ci, cfg, ip, n, tdir, files))
+    singles_jobs = [(b, fn) for b in boxes for fn in b[5]]
+    sres = common.pmap(lambda j: clibox.run_real(exe, j[0][4], ["-q", "-c", j[0][1], "-f", j[1]], timeout=60), singles_jobs)
+    single = {}
+    for (b, fn), r in zip(singles_jobs, sres):
+        single[(b[0], fn)] = (r.rc, r.out)
+    batches = []
+    for b in boxes:
+        ci, cfg, ip, n, tdir, files = b
+        ok = [fn for fn in files if single[(ci, fn)][0] == 0]
+        if n not in ok or len(ok) < 3:
+            continue
+        comps = sorted(fn for fn in ok if fn != n)
+        narrow_first = comps[:]                     # comp_a.c, comp_b.h, comp_c.m, comp_d.mm, ...: each language set grows
+        k = rng.randrange(0, len(narrow_first) + 1)
+        o1 = narrow_first[:k] + [n] + narrow_first[k:]
+        o2 = ok[:]
+        rng.shuffle(o2)
+        for order, mode in ((o1, "args"), (o2, rng.choice(["list", "replace"]))):
+            if mode == "args":
+                argv, sin = ["-q", "-c", cfg] + order, b""
+            elif mode == "list":
+                argv, sin = ["-q", "-c", cfg, "-F", "-"], "\n".join(order).encode() + b"\n"
+            else:
+                argv, sin = ["-q", "-c", cfg, "--replace", "--no-backup"] + order, b""
+            batches.append((b, order, mode, argv, sin))
+    bres = common.pmap(lambda x: clibox.run_real(exe, x[0][4], x[3], stdin=x[4], timeout=120), batches)
+    bad = 0
+    for (b, order, mode, argv, sin), r in zip(batches, bres):
+        ci, cfg, ip, n, tdir, files = b
+        ctx.case("batch:%s:%s:%s:%s" % (ip, cfg, mode, ",".join(order)))
+        ctx.count("batch:" + mode)
+        for i, fn in enumerate(order):
+            want = single[(ci, fn)][1]
+            if mode == "replace":
+                got = r.content.get(fn, files[fn] if fn not in r.diff["deleted"] else None)
+            else:
+                got = r.content.get(fn + ".uncrustify")
+            if got != want:
+                bad += 1
+                if bad <= 4:
+                    ctx.violation("file %d (%s) of one invocation over several files is not formatted as in a run of its own (`-f %s`); files before it: %s"
+                                  % (i + 1, fn, fn, order[:i]),
+                                  {"argv": ["uncrustify"] + argv, "stdin": sin.decode("latin1"), "input": ip, "config": cfg,
+                                   "companion_files": {k: v.decode("latin1") for k, v in COMPANIONS.items()},
+                                   "cwd": "a directory holding the companion files and a copy of the input under its base name",
+                                   "rc": r.rc, "stderr": r.err.decode("latin1")[-300:]},
+                                  key={"batch-order": [os.path.splitext(x)[1] for x in order[:i + 1]], "config": os.path.relpath(cfg, common.REPO)},
+                                  found_input=True)
+                break
+    ctx.oblige("direct oracle: several files in one invocation (positional, -F -, --replace) = one run per file, language from each extension (%d invocations)"
+               % len(batches), bad == 0, "oracle", "%d differing" % bad)
+
+
 def part_lang_table(ctx, exe, table, base):
     """language_flags_from_filename / _from_name of the binary (seen through the -L 0 line) vs the model"""
     rng = ctx.rng
@@ -850,6 +934,7 @@ def run(ctx):
         if not thorough:
             variants = variants[:1] + [variants[1 + ctx.seed % 2]] + variants[3:]
         part_modes(ctx, exe, table, base, cases, rows_for, variants)
+        part_batches(ctx, exe, base, cases)
         if thorough:
             vg = [c for c in cases if os.path.getsize(c[1]) < 8000]
             ctx.rng.shuffle(vg)
